@@ -451,7 +451,7 @@ def verify_unit(index: RepoIndex, contract: Contract) -> list[UnitResult]:
             res.status, res.detail = "engine-error", f"{type(e).__name__}: {e}\n{traceback.format_exc()}"
         res.obligations = _dedupe(ctx.obligations)
         res.gen_time = time.time() - t0
-        missing = [k for k in contract.loops if isinstance(k, int) and k not in ctx.loops_seen]
+        missing = [k for k in contract.loops if isinstance(k, int) and k not in ctx.loops_seen and k not in getattr(contract, 'loops_optional', ())]
         missing_ghost = [p for p, _ in contract.ghost_after if p not in ctx.ghost_hits]
         if res.status == "ok" and (missing or missing_ghost):
             res.status = "contract-error"
